@@ -10,7 +10,7 @@ LEVEL = {
             "the chosen scale factor is a root of the code's quadratic; Verlet on a harmonic surface conserves a shadow energy exactly and the "
             "true-energy drift is bounded by (Omega dt^2/2) E0 for ANY number of steps. Partial: O(dt^2) drift on a general smooth potential is "
             "not derived in Lean (Richardson-ratio test on the implementation, labelled a test). Model tied to hop_to_it of all four hopping "
-            "classes, to advance_position/velocity of SH and MD, and to whole runs", "7 C01", NOTE,
+            "classes, to advance_position/velocity of SH and MD, and to whole runs Composed step (MudModel/Step.lean): an accepted hop inside a whole simulate() step conserves KE + E_active and its target is never the active state (StepThm.shStep_hop_energy); whole FSSH runs are reproduced snapshot by snapshot by the model.", "7 C01", NOTE,
             "Lean 4 theorems (ring/field identities, induction over steps) + correspondence on boundary-directed hops"),
     "C02": ("proof", "Lean theorems (Mathlib matrices over C, via a proved ring-hom bridge from the model) for every N and dt: the midpoint generator "
             "is Hermitian; the code's step matrix is C diag(e^{-i lambda dt}) C^H and is unitary when C is (eigh's contract, monitored); U rho U^H "
@@ -30,7 +30,7 @@ LEVEL = {
             "s*u (parallel to the direction); the applied root has the smaller magnitude and both are roots; rejected hop is a no-op; event fields. "
             "Event bookkeeping (MudModel/Events.lean): for ANY list of attempts the hop log is sound and complete w.r.t. the active-state "
             "sequence (one event per change, from/to = states before/after, no event without change, steps increasing, frustrated count). "
-            "Run-level event/active-state consistency is also checked on the implementation for both trace stores", "7 C04", NOTE,
+            "Run-level event/active-state consistency is also checked on the implementation for both trace stores Whole FSSH runs (every snapshot and every hop / frustrated-hop event) are reproduced by the composed-step model; StepThm.shStep_event relates the logged event to the state change of the step.", "7 C04", NOTE,
             "Lean 4 theorems + correspondence with gaps at 1e-13..0.3 relative distance from the threshold"),
     "C05": ("proof", "Lean theorems. (A) any model, N, dimension: the derivative coupling of the model's basis transformation has zero diagonal, is "
             "antisymmetric, the off-diagonal force matrix equals (E_i-E_j) d_ij above the gap guard, force = diagonal of the force matrix; first-order "
@@ -40,7 +40,7 @@ LEVEL = {
             "dual, super, model X, model S; models W and Z: what dV must be, and counterexample theorems for what the pinned dV returns (KNOWN "
             "FINDINGS: test_subotnik_model_w/z pin arrays computed from the wrong dV). (C) harmonic force = -grad E for a symmetric Hessian. The Lean "
             "V/dV entries and the basis transformation are tied to the Python by correspondence; Shin-Metiu, the 5-D vibronic model and Subotnik2D are "
-            "covered by the convergence-checked finite-difference oracle only (stated)", "7 C05", NOTE,
+            "covered by the convergence-checked finite-difference oracle only (stated) Subotnik2D and the 5-D vibronic model now have Lean entries with per-coordinate HasDerivAt theorems and their own correspondence ops.", "7 C05", NOTE,
             "Lean 4 theorems (matrix perturbation algebra, HasDerivAt per model entry) + correspondence + finite-difference oracle"),
     "C06": ("proof", "Lean theorems, any N and dimension: after the sign fix every column has non-negative overlap with its reference column and the "
             "fix only multiplies columns by +-1; flipping columns by signs s multiplies (C^T dV C)_pq by s_p s_q, hence forces are invariant and "
@@ -55,17 +55,17 @@ LEVEL = {
             "choice); the electronic step with the reversed generator undoes the step on the conjugated state; nuclear+electronic step and whole "
             "forward-then-reversed runs return to the start. PARTIAL: order two is not formalised (symmetric + consistent => even order is cited); "
             "the factor four is a Richardson test on the implementation (two finest ratios of four levels). The model has both the true-midpoint and "
-            "the aliased generator; the correspondence of single real steps tells them apart", "7 C07", NOTE,
+            "the aliased generator; the correspondence of single real steps tells them apart The composed step is Verlet + midpoint generator + exp exactly when no event is logged (StepThm.shStep_event, shStep_common); whole hop-free runs correspond.", "7 C07", NOTE,
             "Lean 4 theorems (ring identities, Matrix.exp conjugation/transposition, induction over steps) + single-step correspondence"),
     "C08": ("proof", "Lean theorems for any N, n: potential = Re tr(rho H); hopping is the identity for any number of steps; mean-field force "
             "= population term + coherence term; exact deviation of the code's force (coherence term missing), partial equality (diagonal rho or "
             "diagonal force matrix), 2-state witness; energy balance d/dt(KE+tr rho H) = v.(F_used - F_meanfield). The pinned _force violates the "
             "property (KNOWN FINDING, suite pins it): the model keeps both variants, the correspondence tries the mean-field force first and reports "
-            "the finding only when the code matches exactly the pinned formula; any other deviation is a VIOLATION", "7 C08", NOTE,
+            "the finding only when the code matches exactly the pinned formula; any other deviation is a VIOLATION Whole Ehrenfest runs in both representations correspond to ehStep/ehRun; StepThm.ehRun_spec: label constant and rho valid along any run.", "7 C08", NOTE,
             "Lean 4 theorems (Finset double sums, flux identity of C03) + dual-variant correspondence"),
     "C09": ("proof", "Lean theorems: closed form 1-(1-a)exp(-sum G) of the accumulation for any rate list, attempt iff threshold below it, first "
             "attempt = first crossing (complete spec), reset and fresh threshold, user thresholds first, inverse-CDF target slot of length g_j/G, "
-            "hop-time law prod(1-p_i) p_k (Poisson equivalence), zero-rate steps never attempt. Tied to TrajectoryCum.hopper on driven sequences", "7 C09", NOTE,
+            "hop-time law prod(1-p_i) p_k (Poisson equivalence), zero-rate steps never attempt. Tied to TrajectoryCum.hopper on driven sequences Whole cumulative-FSSH runs correspond to cumStep/cumRun (snapshots, events, accumulator, threshold).", "7 C09", NOTE,
             "Lean 4 theorems (list induction, Real.exp algebra) + sequence correspondence"),
     "C10": ("proof", "Lean theorems for any sample tree and any sequence of next_zeta calls (several thresholds per call, exhaustion): marginal weights, "
             "last_dw = sum of the dw just passed, children of a crossing carry base*last_dw*sum_t r_t split into nspawn copies, accounting of crossed dw, "
@@ -78,7 +78,7 @@ LEVEL = {
             "satisfy; both RK4 moment integrators preserve Hermiticity exactly (via the general RK4 invariance theorem); the exponential position-moment "
             "integrator preserves Hermiticity; collapse gives zero moments and the pure active state. PARTIAL: Hermiticity of the exponential momentum-"
             "moment integrator (three-index expression) and the dt->0 agreement of the two integrators are checked on the implementation only. All four "
-            "integrator branches, the shift for every target, and collapses with both stores are tied to the code", "7 C11", NOTE,
+            "integrator branches, the shift for every target, and collapses with both stores are tied to the code Hermiticity is now proved for BOTH moment integrators incl. the exponential momentum-moment one (delP_exp_hermitian) and lifted to whole A-FSSH runs with hops and collapses (StepThm.afRun_hermitian); gamma_collapse and the collapse loop are modelled (MudModel/Collapse.lean); whole A-FSSH runs correspond incl. moments, generators, hop and collapse events.", "7 C11", NOTE,
             "Lean 4 theorems (Hermitian subspace invariance, Hadamard/unitary conjugation) + correspondence with captured eigh"),
     "C12": ("proof", "Lean theorems about the hidden state: the k-th threshold used is the k-th element of (user list ++ generator stream); the repaired "
             "__deepcopy__ shares a store location between clone and original only through attributes named in shallow_only (the queue); equal states "
@@ -93,7 +93,7 @@ LEVEL = {
             "uninterrupted run logs after step k and ends in the same state; counterexample theorem for the originally pinned step counter. "
             "The electronic gauge at the restart point is a KNOWN FINDING (fresh eigh sign; reference coefficients not logged): such cases are "
             "reported as KNOWN-FINDING and re-checked with the tracked electronics handed to restart(), where exact agreement is required. Tied to "
-            "real restarts from YAML logs (Ehrenfest, MD, FSSH with thresholds; page sizes 1..16; both rules)", "7 C13", NOTE,
+            "real restarts from YAML logs (Ehrenfest, MD, FSSH with thresholds; page sizes 1..16; both rules) StepThm.shRun_append: a run over a++b is the run over a followed by the run over b from the state and electronics the first part ended with.", "7 C13", NOTE,
             "Lean 4 theorems (induction over the position stream, split lemma) + restart oracle at sampled/every interruption point"),
     "C14": ("proof", "Lean refinement of the YAML store to 'a plain list of snapshots', for every page size >= 1 and every history: collect = append "
             "(invariant preserved, all file operations succeed), len, indexing incl. negative indices and IndexError, reload reproduces the object state "
@@ -113,7 +113,7 @@ LEVEL = {
             "at an earlier check) - never earlier, never later; log = [initial] ++ [steps 0<k<K with (n0+k)%te=0] ++ [final], final exactly once, times "
             "t0+k dt strictly increasing for dt>0; termination within max_steps-n0 steps; kinetic energy = 1/2 sum p^2/m of the logged momentum. The "
             "dynamics are abstracted as the position stream (taken from a limit-free run of the same trajectory). Tied to continue_simulating of all "
-            "classes incl. MD on boundary-directed states and to whole runs with random limits; even-sampling children checked on the implementation", "7 C16", NOTE,
+            "classes incl. MD on boundary-directed states and to whole runs with random limits; even-sampling children checked on the implementation StepThm.shRun_clock/shRun_length: step counter and clock of the k-th logged state of a composed run.", "7 C16", NOTE,
             "Lean 4 theorems (induction over the position stream) + predicate and run-level correspondence"),
     "C17": ("proof", "Lean theorems for any list of traces with weights >= 0, total > 0: every table entry in [0,1], entries sum to one (1-D), "
             "table/counts/histogram invariant under List.Perm, counts = cardinality, hop histogram sums to one, driver row = row-major table. "
